@@ -41,7 +41,7 @@ def analyse_resolution(ctx, interp: Interp, om: OriginModel, consts: Consts, r: 
     for out in enc.raises:
         if hilbert and is_guard_raise(out):
             continue
-        if any((c.left.has_opaque() or c.right.has_opaque()) for c, t, _ in out.state.path):
+        if opaque_path(out.state):
             ctx.unk("C05.3", f"{Q}.serialize at resolution {r}: may raise {_exc_text(out.value)}", core.loc(SER, out.node),
                     f"on a path whose condition is not modelled: [{describe_path(out.state)[:160]}]")
             continue
@@ -129,7 +129,7 @@ def analyse_resolution(ctx, interp: Interp, om: OriginModel, consts: Consts, r: 
                     f"marker scanner and writer disagree: id form {v}")
     elif vals:
         def _opaque(o):
-            return any((c.left.has_opaque() or c.right.has_opaque()) for c, t, _ in o.state.path)
+            return opaque_path(o.state)
         depends = [o for o in vals if o.state.path]
         if depends and any(_opaque(o) for o in depends):
             ctx.unk("C05.5", f"{Q}.get_resolution on ids of resolution {r}", core.loc(SER, vals[0].node),
